@@ -65,6 +65,26 @@ where
     _data: PhantomData<&'a (T, B)>,
 }
 
+// Verification hook (off by default, enabled only with `--cfg bacon_verif`):
+// read-only view of the step bounds held by the builder.
+#[cfg(bacon_verif)]
+impl<'a, N, D, const O: usize, T, F, B> BDF<'a, N, D, O, T, F, B>
+where
+    N: ComplexField + Copy,
+    D: Dimension,
+    T: Clone,
+    F: Derivative<N, D, T> + 'a,
+    B: BDFCoefficients<O, RealField = N::RealField>,
+    D: DimMin<D, Output = D>,
+    DefaultAllocator: Allocator<N, D>,
+    DefaultAllocator: Allocator<N, D, D>,
+{
+    #[doc(hidden)]
+    pub fn verif_dt_bounds(&self) -> (Option<N::RealField>, Option<N::RealField>) {
+        (self.init_dt_min.clone(), self.init_dt_max.clone())
+    }
+}
+
 /// The solver for any BDF predictor-corrector
 /// Users should not use this type directly, and should
 /// instead get it from a specific BDF method struct
